@@ -67,7 +67,11 @@ def apply(s, op):
         comp = s._g[idx] if idx is not None else LET["R"](op[1])
         s.change_comp(op[1], comp=comp, rail=op[2], group=op[3] if len(op) > 3 else "")
     elif k == "dc":
-        s.del_comp(op[1], del_childs=op[2])
+        dcv = op[2]
+        if dcv == "np0":   # numpy.False_ : falsy, but not the object False
+            import numpy as _np
+            dcv = _np.bool_(False)
+        s.del_comp(op[1], del_childs=dcv)
     elif k == "sp":
         s.set_sys_phases(dict((a, b) for a, b in op[1]))
     elif k == "cp":
@@ -229,7 +233,7 @@ def ops(s, budget, letters="RCIM", phase_ops=True, gone=(), analysis_op=False, o
                 other = [n for n in names if n != t][0]
                 add(c + kc + 2, ["cc", t, L, other, ""])
                 add(c + kc + 2, ["cc", t, L, t, other])
-    for t in names:   # the stored object itself is passed back (same name by construction): rail none / fresh / colliding / a component's name
+    for t in (names if phase_ops else []):   # the stored object itself is passed back (same name by construction): rail none / fresh / colliding / a component's name
         add(1, ["ccs", t, ""])
         add(2, ["ccs", t, frail])
         add(2, ["ccs", t, names[0] if names[0] != t else names[-1]])
@@ -239,6 +243,9 @@ def ops(s, budget, letters="RCIM", phase_ops=True, gone=(), analysis_op=False, o
     for c, t in targets:
         add(c, ["dc", t, True])
         add(c + 1, ["dc", t, False])
+        if phase_ops:   # falsy flags that are not the object False (0, numpy.False_)
+            add(c + 2, ["dc", t, 0])
+            add(c + 2, ["dc", t, "np0"])
     if phase_ops:
         add(1, ["sp", [["p", 1.0], ["q", 2.0]]])
         add(1, ["sp", [["p", 5.0], ["q", 2.0], ["r", 1.0]]])
@@ -339,7 +346,7 @@ def model_apply(models, op):
             out.append(m)
         elif k == "dc":
             t = _owner(m, op[1])
-            if op[2]:
+            if op[2] and op[2] != "np0":
                 dead = {t}
                 changed = True
                 while changed:
@@ -484,6 +491,10 @@ def invariant(s):
             errs.append("load-with-children")
         if indeg > 1 and t != _ComponentTypes.PMUX:
             errs.append("multi-parent-non-mux")
+        if len(set(g.predecessor_indices(n))) != indeg:
+            errs.append("parallel-links")          # the same parent linked twice
+        if indeg > 1 and len(A["pnames"].get(n, [])) != indeg:
+            errs.append("input-list-length")       # a mux whose ordered input list disagrees with its links
         if t == _ComponentTypes.PMUX:
             nm += 1
         if t == _ComponentTypes.LOAD and A["rails"].get(c._params["name"], ""):
